@@ -542,6 +542,63 @@ def corpus_f32(chk, da):
             chk.traces_validated += 1
 
 
+def fam_stacked_on_known_axis(chk, da):
+    """arrays with ONE unknown axis (a dask boolean mask along an axis): stacked basic indices, elementwise ops and reductions
+    on the KNOWN axes must raise or be NumPy's (never an empty / misshapen result), for one and several blocks on the unknown axis"""
+    import random as _random
+    rng = _random.Random(f"C28-stacked-known-axis-{chk.seed}")
+    for it in range(1500 if chk.tier == "thorough" else 200):
+        rows, cols = rng.choice([4, 6, 8]), rng.choice([5, 6, 9])
+        xn = (np.arange(rows * cols).reshape(rows, cols) * 7) % 101
+        rchunks = progs.rand_chunks_for(rng, rows)
+        mask_blocks = rng.choice([1, 1, 2, 3])
+        mn = np.array([rng.random() < 0.6 for _ in range(cols)])
+        if not mn.any():
+            mn[0] = True
+        cch = (cols,) if mask_blocks == 1 else progs.rand_chunks_for(rng, cols)
+        ax = rng.choice([0, 1])
+        if ax == 0:
+            xn = xn.T.copy()
+        x = da.from_array(xn, chunks=(cch, rchunks) if ax == 0 else (rchunks, cch))
+        m = da.from_array(mn, chunks=(cch,))
+        y, w = (x[m, :], xn[mn, :]) if ax == 0 else (x[:, m], xn[:, mn])
+        known = 1 - ax
+        n = w.shape[known]
+        a, b = rng.randrange(0, n), rng.randrange(1, n + 1)
+
+        def on_known(t, i):
+            return t[(slice(None),) * known + (i,)]
+        ops = {
+            "y[a:][0:b]": lambda t: on_known(on_known(t, slice(a, None)), slice(0, b)),
+            "(y[a:]+1)[0:b]": lambda t: on_known(on_known(t, slice(a, None)) + 1, slice(0, b)),
+            "y[::2][1:]": lambda t: on_known(on_known(t, slice(None, None, 2)), slice(1, None)),
+            "y[a:][::-1]": lambda t: on_known(on_known(t, slice(a, None)), slice(None, None, -1)),
+            "y[a][...]": lambda t: on_known(t, a)[...],
+            "y[a:].sum(known)": lambda t: on_known(t, slice(a, None)).sum(axis=known),
+            "y[0:][a:]": lambda t: on_known(on_known(t, slice(0, None)), slice(a, None)),
+        }
+        name = rng.choice(sorted(ops))
+        want = ops[name](w)
+        desc = {"x": xn.tolist(), "x_chunks": x.chunks, "mask": mn.astype(int).tolist(), "unknown_axis": ax, "op": name, "a": a, "b": b,
+                "blocks_on_unknown_axis": len(cch)}
+        chk.case(("stacked-known-axis", it, name, ax, len(cch)), nontrivial=True, sample=desc if it < 2 else None)
+        chk.count(f"stacked-known-axis:{len(cch)}blocks")
+        try:
+            with warnings.catch_warnings():
+                warnings.simplefilter("ignore")
+                got = ops[name](y).compute(scheduler="sync")
+        except Exception:  # noqa: BLE001
+            chk.count("stacked-known-axis:refused")
+            chk.traces_validated += 1
+            continue
+        if np.shape(got) != np.shape(want) or not np.array_equal(got, want):
+            chk.violation(f"{name} on an array with an unknown axis silently returns shape {np.shape(got)}, NumPy {np.shape(want)}"
+                          + ("" if np.shape(got) != np.shape(want) else " with other values"), desc,
+                          signature={"class": "unknown-chunks", "problem": "indices on the known axes: silently wrong", "op": name})
+        else:
+            chk.traces_validated += 1
+
+
 def fam_unknown_vs_known(chk, da, rng):
     """binary elementwise ops between a selection with unknown block sizes and a KNOWN operand (one chunk, the same number of
     blocks, a broadcast length-1 axis), under every unify-chunks policy: must raise or give NumPy's result.  The masks are
@@ -631,6 +688,7 @@ def run(chk: Check):
     corpus_f32(chk, da)
     rng = chk.rng
     fam_unknown_vs_known(chk, da, rng)
+    fam_stacked_on_known_axis(chk, da)
     n = 5000 if chk.tier == "thorough" else 300
     for it in range(n):
         rank = rng.choice([1, 1, 2, 2, 3])
